@@ -190,6 +190,6 @@ def classify(case):
 
 SHARDS = {"quick": 8, "thorough": 16}
 ORACLES = [
-    Oracle("ode_solution", f_case(), check_solution, quick=96, thorough=400, shrink_seconds=180),
-    Oracle("independence", indep_case(), check_independence, quick=32, thorough=120, shrink_seconds=180),
+    Oracle("ode_solution", f_case(), check_solution, quick=160, thorough=1200, shrink_seconds=180),
+    Oracle("independence", indep_case(), check_independence, quick=64, thorough=400, shrink_seconds=180),
 ]
